@@ -1084,7 +1084,19 @@ pub unsafe extern "C" fn clock_gettime(clk: libc::clockid_t, ts: *mut libc::time
         (*ts).tv_nsec = ns % 1_000_000_000;
         return 0;
     }
-    sys!(libc::SYS_clock_gettime, clk as c_long, ts) as c_int
+    // non-actor threads: the real (vDSO backed) implementation
+    type F = unsafe extern "C" fn(libc::clockid_t, *mut libc::timespec) -> c_int;
+    static REAL: AtomicUsize = AtomicUsize::new(0);
+    let mut f = REAL.load(Ordering::Relaxed);
+    if f == 0 {
+        f = libc::dlsym(libc::RTLD_NEXT, b"clock_gettime\0".as_ptr() as *const c_char) as usize;
+        if f == 0 {
+            return sys!(libc::SYS_clock_gettime, clk as c_long, ts) as c_int;
+        }
+        REAL.store(f, Ordering::Relaxed);
+    }
+    let f: F = std::mem::transmute(f);
+    f(clk, ts)
 }
 
 #[no_mangle]
